@@ -125,5 +125,44 @@ PLANS = {
                      'an event submitted from the entry behaviour of the new state counts as submitted before the configuration change '
                      '(its order relative to re-offered deferred events is not asserted)'],
     ),
+    'C11': dict(
+        oracle='C11', level='exploration',
+        profiles=[('blocking', 6)], curated=[], configs=ALLCFG,
+        cp=dict(max_ops=30, kinds=['P', 'P', 'P', 'P', 'P', 'Q', 'X', 'T'], scripts={'p': ['r', 'Q']}),
+        examples=(300, 2500), floor=(40, 400),
+        rule='Generated histories on machines whose root declares terminate and interrupt states (1-3 regions, single and multiple '
+             'end-interrupt events, flags, completion rows, queued events and submissions from behaviours pending when the blocking '
+             'state is entered), with long tails of events afterwards. Model-free invariant: while a blocking state is entered no '
+             'behaviour runs for any occurrence other than the one that entered it (interrupt: except end-interrupt types), the '
+             'configuration does not change, swallowed occurrences never reappear; end-interrupt steps equal the model. '
+             'Non-trivial = a submission or queue execution while blocked; distinct by (spec, blocking states, event, configuration).',
+        assumptions=['blocking states are declared in the machine that receives the events (root)'],
+    ),
+    'C17': dict(
+        oracle='C17', level='exploration',
+        profiles=[('flags', 6)], curated=[], configs=ALLCFG,
+        cp=dict(max_ops=25, kinds=['P', 'P', 'P', 'P', 'T'], scripts={'b': True}, auto_probe=True),
+        examples=(300, 2500), floor=(30, 300),
+        rule='Generated histories on machines with user flags on simple states, submachine states and substates; probe of every '
+             '(machine, flag) with OR and AND after every operation and probes from inside behaviours at generated callback ordinals. '
+             'Oracle: OR <=> some state of the active configuration (recursively) carries the flag; AND <=> every region of the '
+             'queried level carries it (only where that level has only simple active states); inside behaviours the reported ids and '
+             'flags equal the policy-defined configuration of the model. Non-trivial = a quiescent probe where OR != AND or where the '
+             'flag is carried only by a nested level; distinct by (spec, machine, flag, configuration).',
+        assumptions=['AND form is checked only on levels whose active states are all simple (property carve-out)'],
+    ),
+    'C19': dict(
+        oracle='C19', level='exploration',
+        profiles=[('policy_after_entry', 2), ('policy_after_action', 2), ('policy_after_exit', 2), ('policy_before', 2), ('policy_default', 1)],
+        curated=[], configs=ALLCFG,
+        cp=dict(max_ops=20, kinds=['P'], scripts={'b': True}),
+        examples=(300, 2500), floor=(100, 1000),
+        rule='Machines generated under each of the four active-state-switch policies (and the default); behaviours at generated '
+             'callback ordinals (guard, exit, action, entry of external transitions, also into/out of submachines and in orthogonal '
+             'regions) read current_state()/get_active_state_ids() of every machine and every flag. Oracle: each probe equals the '
+             'documented policy table (model R-policy); with probes removed the trace equals the policy-independent model trace. '
+             'Non-trivial = a probe hosted by a behaviour of an external transition; distinct by (spec, policy, phase, host, answer).',
+        assumptions=['reference model R-policy restates active_state_switching_policies.hpp independently'],
+    ),
 }
 NOT_YET = {}
